@@ -252,7 +252,7 @@ func checkSides(rc *RC, h *HS, f c04Fault, pr c04Probe, cancelStep int, cancelTi
 			}
 		}
 		if probe {
-			if h.kind == "volfail" {
+			if h.kind == "volfail" || h.kind == "volparse" {
 				continue // the failing voluntary feature is evaluated by c4 above; the receiver waits for the next selection
 			}
 			if !x.done || x.err != nil {
